@@ -307,7 +307,7 @@ func VerifC13Pairs() {
 	}
 	// mutating operations whose acknowledgement promises an effect: peers, credits, links; the first one
 	// acts on node 0 / wallet 0, the second on either node / wallet (unordered pairs: op1 <= op2)
-	k1, k2 := 1+verifapi.Choose("op1", 4), 1+verifapi.Choose("op2", 4)
+	k1, k2 := 1+verifapi.Choose("op1", 5), 1+verifapi.Choose("op2", 5)
 	verifapi.Assume(k1 <= k2)
 	id1, id2 := ids[0], ids[verifapi.Choose("id2", 2)]
 	a1, a2 := accts[0], accts[verifapi.Choose("acct2", 2)]
@@ -352,6 +352,8 @@ func verifC13OpErr(s *badgerStore, k int, ids []store.NodeID, id store.NodeID, a
 		return s.AddAccountBalance(a, amount)
 	case 4:
 		return s.AddAccountNode(a, id)
+	case 5: // the node registers again (a reconnect): a new record for the same id
+		return s.SetNode(store.Node{ID: id, IsHost: true, Kind: "parity", URI: "enode://" + string(id) + "@192.0.2.9:30303", LastSeen: verifapi.Now(), BlockNumber: 9})
 	}
 	return nil
 }
